@@ -452,6 +452,25 @@ class Interp:
             else:
                 st.alias[i.id] = list(self.key(st, src))
             return [st]
+        if op == "call" and (i.callee or "").startswith(("llvm.sadd.with.overflow.i64", "llvm.ssub.with.overflow.i64")):
+            sign = 1 if "sadd" in i.callee else -1
+            out = self.addsub(st, i, sign)
+            for s2 in out:
+                w = s2.defs[key][3]
+                s2.conds[i.id] = ("ovf", w)
+            return out
+        if op == "extractvalue":
+            agg = self.key(st, i.ops[0])
+            c = st.conds.get(agg[1]) if agg[0] == "i" else None
+            if c and c[0] == "ovf":
+                if i.d.get("idx") == [0]:
+                    st.alias[i.id] = list(agg)
+                    return [st]
+                if i.d.get("idx") == [1] and c[1] is not None:
+                    st.alias[i.id] = ["c", 1 if c[1] != 0 else 0, 1]
+                    return [st]
+            st.env[key] = AV(SMIN, SMAX, None, None)
+            return [st]
         if op == "call":
             cal = i.callee or "?"
             if i.d.get("ty") in (None, "void"):
